@@ -28,31 +28,32 @@ type Move struct {
 
 // Scenario is plain data: everything an execution depends on (apart from runtime-owned choices).
 type Scenario struct {
-	Prop     string  `json:"prop"`
-	Stage    string  `json:"stage"`
-	Mode     string  `json:"mode,omitempty"` // pure lift try | liftf tryf
-	StdErr   bool    `json:"stderr,omitempty"`
-	Caps     []int   `json:"caps"`
-	In       [][]int `json:"in"`
-	N        int     `json:"n,omitempty"` // take: n ; join: unused
-	F        int     `json:"f,omitempty"`
-	A        int     `json:"a,omitempty"`
-	B        int     `json:"b,omitempty"`
-	Fail     []int   `json:"fail,omitempty"`    // values (map/fmap/unfold) or indices (emit) on which the user function fails
-	ErrKind  int     `json:"errkind,omitempty"` // 0 plain, 1 wraps context.Canceled, 2 wraps io.EOF, 3 wraps context.DeadlineExceeded, 4 slice-typed (non-comparable) error
-	CtxErr   bool    `json:"ctxerr,omitempty"`  // arrows return ctx.Err() (true) or nil (false) when they see the cancel
-	Ops      int     `json:"ops,omitempty"`     // throttle
-	Interval int     `json:"interval,omitempty"`
-	Freq     int     `json:"freq,omitempty"` // emit: frequency in time units
-	Seed     int     `json:"seed,omitempty"` // unfold
-	Unit     int     `json:"unit,omitempty"` // nanoseconds per time unit (tick, interval, freq)
-	Script   []Move  `json:"script"`
-	NoFinish bool    `json:"nofinish,omitempty"` // C06: after the script nobody receives any more: cancel + close inputs only
-	Prefill  int     `json:"prefill,omitempty"`  // elements already sitting in the (buffered) input 0 when the stage is created
-	Par      int     `json:"par,omitempty"`      // fork stages: number of workers
-	Gated    bool    `json:"gated,omitempty"`    // fork stages: user calls block on gates opened by release moves
-	Monoid   int     `json:"monoid,omitempty"`   // fork.Fold: commutative monoid family member
-	T        Timing  `json:"t,omitzero"`         // C11/C13/C08 only
+	Prop      string  `json:"prop"`
+	Stage     string  `json:"stage"`
+	Mode      string  `json:"mode,omitempty"` // pure lift try | liftf tryf
+	StdErr    bool    `json:"stderr,omitempty"`
+	Caps      []int   `json:"caps"`
+	In        [][]int `json:"in"`
+	N         int     `json:"n,omitempty"` // take: n ; join: unused
+	F         int     `json:"f,omitempty"`
+	A         int     `json:"a,omitempty"`
+	B         int     `json:"b,omitempty"`
+	Fail      []int   `json:"fail,omitempty"`    // values (map/fmap/unfold) or indices (emit) on which the user function fails
+	ErrKind   int     `json:"errkind,omitempty"` // 0 plain, 1 wraps context.Canceled, 2 wraps io.EOF, 3 wraps context.DeadlineExceeded, 4 slice-typed (non-comparable) error
+	CtxErr    bool    `json:"ctxerr,omitempty"`  // arrows return ctx.Err() (true) or nil (false) when they see the cancel
+	Ops       int     `json:"ops,omitempty"`     // throttle
+	Interval  int     `json:"interval,omitempty"`
+	Freq      int     `json:"freq,omitempty"` // emit: frequency in time units
+	Seed      int     `json:"seed,omitempty"` // unfold
+	Unit      int     `json:"unit,omitempty"` // nanoseconds per time unit (tick, interval, freq)
+	Script    []Move  `json:"script"`
+	NoFinish  bool    `json:"nofinish,omitempty"`  // C06: after the script nobody receives any more: cancel + close inputs only
+	Prefill   int     `json:"prefill,omitempty"`   // elements already sitting in the (buffered) input 0 when the stage is created
+	PreCancel bool    `json:"precancel,omitempty"` // the context is already cancelled when the stage is created
+	Par       int     `json:"par,omitempty"`       // fork stages: number of workers
+	Gated     bool    `json:"gated,omitempty"`     // fork stages: user calls block on gates opened by release moves
+	Monoid    int     `json:"monoid,omitempty"`    // fork.Fold: commutative monoid family member
+	T         Timing  `json:"t,omitzero"`          // C11/C13/C08 only
 }
 
 func (sc *Scenario) unit() time.Duration {
